@@ -19,6 +19,9 @@ pub mod aio;
 pub mod c14;
 pub mod c15;
 pub mod c16;
+pub mod refser;
+pub mod c17;
+pub mod c18;
 pub mod c11;
 pub mod c19;
 pub mod corpus;
@@ -68,6 +71,8 @@ fn main() {
                 "c14" => if replay { c14::replay(&a2, &mut rep) } else { c14::run(&a2, &mut rep) },
                 "c15" => if replay { c15::replay(&a2, &mut rep) } else { c15::run(&a2, &mut rep) },
                 "c16" => if replay { c16::replay(&a2, &mut rep) } else { c16::run(&a2, &mut rep) },
+                "c17" => if replay { c17::replay(&a2, &mut rep) } else { c17::run(&a2, &mut rep) },
+                "c18" => if replay { c18::replay(&a2, &mut rep) } else { c18::run(&a2, &mut rep) },
                 "c11" => if replay { c11::replay(&a2, &mut rep) } else { c11::run(&a2, &mut rep) },
                 "c19" => if replay { c19::replay(&a2, &mut rep) } else { c19::run(&a2, &mut rep) },
                 "c05" => if replay { c05::replay(&a2, &mut rep) } else { c05::run(&a2, &mut rep) },
